@@ -7,7 +7,8 @@
 
 namespace vk {
 
-constexpr int kUnsupported = -1000;   // reader/writer kind cannot carry this type (no Skip / no handle channel / float via constexpr)
+constexpr int kUnsupported = -1000;
+constexpr int kNonTermination = -2000;   // the reader call budget was exceeded (see CountingReader)   // reader/writer kind cannot carry this type (no Skip / no handle channel / float via constexpr)
 
 struct Obj {
   virtual ~Obj() {}
@@ -25,6 +26,7 @@ struct TypeOps {
   size_t elem_max = 0;    // max sizeof of an element of a growable container nested in T (allocation budget)
   std::function<std::unique_ptr<Obj>()> make;
   bool supports_reader(int k) const {
+    if (k == R_CPed || k == R_CBuf) return has_table && !has_handle;   // only instantiated where input-driven loops can rewind
     if (has_handle && !rk_has_handles(k)) return false;
     if (has_table && !rk_has_skip(k)) return false;
     return true;
@@ -96,6 +98,11 @@ struct ObjOf : Obj {
       }
       if constexpr (!M::kTable) {
         if (r.kind == R_Fd) return st(nop::Deserializer<nop::FdReader*>(r.fd.get()).Read(obj));
+      } else {
+        try {
+          if (r.kind == R_CPed) return st(nop::Deserializer<CountingReader<nop::PedanticBufferReader>*>(&r.cped).Read(obj));
+          if (r.kind == R_CBuf) return st(nop::Deserializer<CountingReader<nop::BufferReader>*>(&r.cbuf).Read(obj));
+        } catch (const CallBudgetExceeded&) { return kNonTermination; }
       }
     }
     return kUnsupported;
